@@ -84,7 +84,12 @@ def _site(e):
         fn = fr.filename.replace('\\', '/')
         if '/kmip/' in fn and '/site-packages/' not in fn:
             site = '%s:%s' % (fn.split('/kmip/', 1)[1], fr.name)
-    return '%s:%s' % (site, type(e).__name__)
+    detail = ''
+    if isinstance(e, AttributeError):
+        import re
+        m = re.search(r"has no attribute '(\w+)'", str(e))
+        detail = '(%s)' % m.group(1) if m else ''
+    return '%s:%s%s' % (site, type(e).__name__, detail)
 
 
 def generate(repo):
